@@ -272,6 +272,20 @@ def run_case(case: dict, ctx: Ctx) -> None:
             ctx.check("M-total", abs(tot - want) / want, 1e-9, key + "/M-total@reassigned-density", got=tot, want=want, factor=f, rho0=rho0)
             rho = rho * f
             total_rho = total_rho * f
+        # ---- the thickness of the model is assigned again on the same simulation (2-D meshes): M and K follow ---------------------
+        if dim == 2 and mesh.inDim == 2:
+            t2 = thickness * float(rng.uniform(0.2, 0.7))
+            with ctx.monitored("no-exception", key + "/reassigned-thickness/raised"):
+                with quiet():
+                    (law if case["kind"] == "elastic" else model).thickness = t2
+                    Kc, Cc, Mc, _ = simu.Get_K_C_M_F()
+                    M2 = Mc if case["kind"] == "elastic" else Cc
+            one = np.zeros(mesh.Nn * dof_n)
+            one[0::dof_n] = 1
+            tot = float(one @ (M2 @ one))
+            want = total_rho * mass_factor * t2 / thickness
+            ctx.check("M-total", abs(tot - want) / want, 1e-9, key + "/M-total@reassigned-thickness", got=tot, want=want, t_old=thickness, t_new=t2)
+            ctx.check("K-scales-with-thickness", float(abs(Kc - K * (t2 / thickness)).max() / abs(K).max()), 1e-10, key + "/K@reassigned-thickness")
 
 
 def run_beam(case: dict, ctx: Ctx, rng) -> None:
